@@ -280,6 +280,9 @@ func buildIntrinsics() map[string]Intrinsic {
 	lock := func(g *Goroutine, c *frame, fn *ssa.Function, a []Value) (Value, bool) {
 		key := a[0].ptr()
 		st := side(g.p, key, func() *mutexState { return &mutexState{} })
+		if g.p.schedForks {
+			g.yield() // acquiring a lock is a scheduling point when schedules are explored
+		}
 		g.block("mutex", func() bool { return !st.locked && st.readers == 0 })
 		st.locked = true
 		st.holder = g.id
@@ -294,6 +297,9 @@ func buildIntrinsics() map[string]Intrinsic {
 		}
 		st.locked = false
 		g.p.lockEvent(g, key, 'U')
+		if g.p.schedForks {
+			g.yield() // releasing a lock is a scheduling point when schedules are explored
+		}
 		return Value{}, true
 	}
 	m["(*sync.Mutex).Lock"] = lock
